@@ -185,6 +185,23 @@ func (env *Env) eval(e Expr) *SV {
 		}
 		env.fail("cannot index %s", exprString(e.X))
 	case FieldE:
+		// pkg.Var: a package-level variable of an imported package
+		if id, isId := e.X.(Ident); isId && env.pkg != nil {
+			if _, local := env.names[id.Name]; !local {
+				for _, imp := range env.pkg.Imports() {
+					if imp.Name() == id.Name {
+						if obj, ok := imp.Scope().Lookup(e.Name).(*types.Var); ok {
+							vc.eng.ensureBuiltPkg(imp.Path())
+							if sp := vc.eng.pkgs[imp.Path()]; sp != nil {
+								if g, ok := sp.Members[e.Name].(*ssa.Global); ok {
+									return vc.loadPure(vc.entryOr(env.st), vc.globalPtr(g), obj.Type())
+								}
+							}
+						}
+					}
+				}
+			}
+		}
 		if a, t, ok := env.evalAddr(e); ok && size(t) <= 64 {
 			return vc.loadPure(env.st, a, t)
 		}
@@ -616,7 +633,7 @@ func (env *Env) evalCall(e CallE) *SV {
 		}
 		qs := bvSort(qbits)
 		mkv := func(t string) *SV { return ghostBV(qbits, true, t) }
-		if lok && hok && hc-lc <= 64 {
+		if lok && hok && hc >= lc && uint64(hc)-uint64(lc) <= 64 {
 			var parts []string
 			for k := lc; k < hc; k++ {
 				parts = append(parts, env.with(id.Name, mkv(bvLit(qbits, k))).evalBool(e.Args[3]))
